@@ -550,6 +550,21 @@ func (fr *Frame) applyContract(in ssa.Instruction, callee *ssa.Function, cc *ssa
 	// effects
 	if c.ModAll || !c.HasMod && !c.Trusted && false {
 		fr.cur = pre.Havoc(nil, "c")
+		fr.preserveUnescaped(pre, fr.cur)
+		if len(c.Modifies) > 0 {
+			// ghost variables listed next to '*'
+			only := map[string]bool{}
+			for _, m := range c.Modifies {
+				for _, n := range env.modNames(m.E) {
+					if strings.HasPrefix(n, "G|ghost.") {
+						only[n] = true
+					}
+				}
+			}
+			if len(only) > 0 {
+				fr.cur = fr.cur.Havoc(only, "g")
+			}
+		}
 	} else if len(c.Modifies) > 0 {
 		fr.cur = fr.applyModifies(env, c, pre)
 	} else {
@@ -566,6 +581,19 @@ func (fr *Frame) applyContract(in ssa.Instruction, callee *ssa.Function, cc *ssa
 	env.heap = fr.cur
 	env.old = pre
 	env.bindResults(callee, cc, res)
+	// ghost assignments of the callee
+	if len(c.GhostSets) > 0 {
+		nh := fr.cur.Derive()
+		for _, gs := range c.GhostSets {
+			if gv, ok := vc.P.CS.GhostVars[gs.Name]; ok {
+				if t, ok := env.tryEvalBool(gs.Cl.E); ok {
+					nh.Set(vc.ghostVarHeap(gv), t)
+				}
+			}
+		}
+		fr.cur = nh
+		env.heap = nh
+	}
 	for _, en := range c.Ensures {
 		// clauses that mention the callee's own ghost snapshots cannot be stated at a call site: they are simply not assumed
 		cond, ok := env.tryEvalBool(en.E)
